@@ -49,6 +49,7 @@ def check(repo: Repo, R) -> None:
     R.run(c18_.check, repo, shared.Retag(R, lambda r, k: "C07.3-freeze" if r.startswith("C18.7") or (r.startswith("C18.4") and k.endswith("freeze-guard")) else None,
                                    "a definition that was elaborated accepts additions — or is changed by the very call that refuses one (the holder of the name is evicted before the refusal): exporting the same design again gives another package"))
     R.run(every_child_visited, repo, R)
+    R.run(new_parents_see_original_ports, repo, R, "C07.9-new-parents-see-original-ports")
     R.floor("C07.1-snapshot-before-flattening", 2)
     R.floor("C07.2-bundled-vs-flattened-io", 2)
     R.floor("C07.3-freeze", 3)
@@ -391,3 +392,51 @@ def every_child_visited(repo: Repo, R):
     missing = sorted(set(conts.values()) - visited)
     R.check(not missing, rule, key_of(emb), emb.site, f"before a pass runs on a module it has visited the targets of all its {sorted(conts.values())}" + (f" — NOT of {missing}" if missing else ""),
             why="a module reached only through an instance bundle (a Pair of modules that hold Pairs) is never visited by the early passes: its own instance bundles are silently dropped from the package — unless it was elaborated earlier")
+
+
+def new_parents_see_original_ports(repo: Repo, R, rule: str):
+    """Library code that builds a new parent around an instantiable it was handed (Wrapper, Series) reads that unit's
+    ports through a view that is the same before and after the unit was elaborated: elaboration flattens bundle-valued
+    ports in place and keeps the originals in `_pre_flattening_io`."""
+    fio = repo.func(F_INSTANTIABLE, "io")
+    # the views that hand out the pre-flattening ports when there are any: by role, not by name
+    stable = set()
+    for fi in repo.funcs_in("hdl21/"):
+        if fi.cls is not None or not fi.node.args.args:
+            continue
+        a0 = fi.node.args.args[-1].arg if fi.name == "io_for_checking" else fi.node.args.args[0].arg
+        for r_ in shared.returns_of(fi.node):
+            if r_.value is None:
+                continue
+            t = shared.prov_text(fi.node, r_.value)
+            if "_pre_flattening_io" in t and any("_pre_flattening_io" in shared.prov_text(fi.node, c) for c, _p in shared.path_conditions(fi.node, r_)):
+                stable.add(fi.qual)
+    if len(stable) < 1:
+        raise AnalysisError(f"anchor-vanished: views that hand out `_pre_flattening_io` ({sorted(stable)})")
+    n = 0
+    for fi in repo.funcs_in(F_GENERATORS):
+        params = {a.arg for a in fi.node.args.args}
+        for c in au.calls_in(fi.node):
+            callee = repo.resolve_call(c, fi)
+            if callee is not fio or not c.args:
+                continue
+            root = shared.prov(fi.node, c.args[0])
+            made_here = isinstance(root, ast.Call)
+            base = root
+            while isinstance(base, (ast.Attribute, ast.Subscript)):
+                base = base.value
+            given = not made_here and isinstance(base, ast.Name) and base.id in params
+            if not given:
+                continue
+            n += 1
+            R.check(False, rule, key_of(fi, f"live-ports-of-{ast.unparse(c.args[0])}"), fi.at(c),
+                    f"{fi.name} builds a new parent from `{ast.unparse(c)}`: the ports the unit has *now* — flattened ones once it was elaborated",
+                    why="`to_proto(Wrapper(Bot))` works before `elaborate(Bot)` and is refused after it (`Missing connection to Port ab`); a Series stack silently gets scalar ports instead of the bundle")
+    for fi in repo.funcs_in(F_GENERATORS):
+        for c in au.calls_in(fi.node):
+            callee = repo.resolve_call(c, fi)
+            if isinstance(callee, FuncInfo) and callee.qual in stable and c.args:
+                n += 1
+                R.ok(rule, key_of(fi, f"original-ports-of-{ast.unparse(c.args[0])}"), fi.at(c), f"{fi.name} reads `{ast.unparse(c)}`: the unit's original ports, elaborated or not")
+    if n < 2:
+        raise AnalysisError(f"anchor-vanished: {F_GENERATORS} reads the ports of a unit at {n} sites; 2 were confirmed by reading (Wrapper, Series)")
